@@ -6,6 +6,8 @@ def check(ctx):
     run = ctx.run
     rows.r13_no_materialise(ctx)
     rows.r13_lazy_chain(ctx)
+    nh = rows.r13_no_pull_after_handover(ctx)
+    run.floor('R13h', nh, 20, 'yielded streams')
     for m, why in sorted(rows.OUT_OF_SCOPE_MODULES.items()):
         run.note('out of scope: %s (%s)' % (m, why))
     run.trusted += ['itertools.chain/islice/zip_longest, zip, enumerate, iter, map, filter are lazy',
